@@ -171,14 +171,16 @@ def arc_length_3point(p_start: NPPointType, p_btw: NPPointType, p_end: NPPointTy
     bsqr = vect_b.dot(vect_b)
     adotb = vect_a.dot(vect_b)
 
-    denom = asqr * bsqr - adotb * adotb
+    # |a x b|^2 (= asqr * bsqr - adotb^2, which loses all its digits when points are nearly collinear)
+    a_cross_b = np.cross(vect_a, vect_b)
+    denom = a_cross_b.dot(a_cross_b)
     # https://develop.openfoam.com/Development/openfoam/-/blob/master/src/OpenFOAM/primitives/Scalar/floatScalar/floatScalar.H
     if norm(denom) < 1e-18:
         raise ValueError("Invalid arc points!")
 
     fact = 0.5 * (bsqr - adotb) / denom
 
-    centre = p_start + 0.5 * vect_a + fact * (np.cross(np.cross(vect_a, vect_b), vect_a))
+    centre = p_start + 0.5 * vect_a + fact * (np.cross(a_cross_b, vect_a))
 
     # Position vectors from centre
     rad_start = p_start - centre
